@@ -20,3 +20,10 @@ claim('C20',
 claim('C08',
   'bounded model checking of the real decoders: every input of length 0..N (N=12 quick, 16 thorough) with symbolic content in an end-aligned heap object; assertions: consumed <= input, value window inside input, acceptance == reference DER grammar, accept => re-encode equals accepted octets, encode => decode inverts; CBMC pointer/bounds checks are the memory oracle',
   'trusted: CBMC memory model, the DER grammar model in harness/C08/der.c (written from der.h), REL (NDEBUG) profile; reads BEFORE the start of the input are only visible when n == N', 'DESIGN.md 3/C08')
+
+claim('C03',
+  'bounded model checking: bash-f (64- and 32-bit units) == loop-form model of STB 34.101.77 for ALL 2^1536 states; brng 256-bit counter increment for all counters (both word sizes); botp dynamic truncation / counter for all MACs and counters. Sponge/brng/OTP glue over uninterpreted primitives: see evidence not_decided',
+  'trusted: CBMC, the bash-f model in harness/C03/bashf.c (written from the standard), RFC 4226 truncation model', 'DESIGN.md 3/C03')
+claim('C10',
+  'bounded model checking of the real Start/Step/Get code with the block cipher as an uninterpreted function: for every length tuple inside the bound (complete enumeration by the driver) the chunked / get-then-continue / relocated run equals the one-shot run for ALL data, keys and IVs',
+  'trusted: CBMC, stubs/belt_block_uf*.c (uninterpreted cipher: weaker than the real one, so proved equalities transfer); key length fixed to 32 in chunking instances', 'DESIGN.md 3/C10')
